@@ -468,7 +468,13 @@ class CallMixin(object):
             n = self.emit('effect', node, data)
             res = Call(q, tuple(args), tuple(sorted(kwargs.items())), n)
             data['result'] = res
-            self.route_raise(n, prims.MAY_RAISE.get(q, ()))
+            quiet = q == 'shutil.rmtree' and (
+                truth(kwargs.get('ignore_errors', args[1] if len(args) > 1 else Const(False)))
+                is not False or 'onerror' in kwargs or 'onexc' in kwargs or len(args) > 2)
+            if quiet:
+                data['errors_ignored'] = True       # failures are swallowed by the callee
+            else:
+                self.route_raise(n, prims.MAY_RAISE.get(q, ()))
             self.drain_generators(args, kwargs, node)
             self.run_callbacks(args, kwargs, node)
             return res
@@ -982,12 +988,19 @@ class CallMixin(object):
         return getattr(self, 'loop_depth', 0) > 0
 
     def dict_method(self, d, name, args, kwargs, node):
+        if name == 'get' and args and isinstance(args[0], Phi) and len(args[0].alts) > 1 \
+                and not kwargs:
+            return join(*[(self.dict_method(d, name, [a] + list(args[1:]), kwargs, node), o)
+                          for a, o in args[0].alts])
         if name == 'get' and args:
             v = self.subscript(d, args[0], node)
             default = args[1] if len(args) > 1 else NONE
             if isinstance(v, Sub):
                 return join(*([x for _, x in d.entries] + [default]))
             # decided lookup returns the value; else add the default
+            cs = [self.compare('==', k, args[0]) for k, _ in d.entries]
+            if cs and all(isinstance(c, Const) and not c.value for c in cs):
+                return default
             for k, val in d.entries:
                 if isinstance(self.compare('==', k, args[0]), Const) and \
                         self.compare('==', k, args[0]).value:
